@@ -12,7 +12,7 @@ import subprocess
 import sys
 
 sys.path.insert(0, os.path.dirname(os.path.abspath(__file__)))
-from collect_seed import run_checks, sh  # noqa: E402
+from collect_seed import restore_repo, run_checks, sh  # noqa: E402
 
 VERIF = os.path.dirname(os.path.dirname(os.path.abspath(__file__)))
 
@@ -38,7 +38,7 @@ def main():
         try:
             res = run_checks(prop)
         finally:
-            sh("git -C /repo checkout -- .")
+            restore_repo()
         tgt = res[prop]
         others = sorted("%s:%s" % (c, "/".join(r["rules"])) for c, r in res.items() if r["exit"] == 1 and c != prop)
         errs = sorted(c for c, r in res.items() if r["exit"] == 2)
